@@ -32,6 +32,14 @@ CHECKS = {
    technique="bounded-exhaustive enumeration of constraint-violating values (one violated constraint each) on the real generated encoders; validity judged on the abstract constraint",
    text="For every constrained zoo type and every container holding one: integers lb-1, lb-2, lb-2^k, ub+1, ub+2, ub+2^k and the extremes of every Rust integer type; sizes lb-1, 0, ub+1, ub+2, 2ub+1; one illegal character (below / above the alphabet, 2-, 3- and 4-byte scalars, type specific look-alikes) at first / middle / last position of a min-, mid- and max-length string; out-of-range elements and components inside otherwise valid lists, sequences and choices. Non-extensible => Err (never Ok, whatever it decodes to); extensible => Ok, bits == refper (extension form) and round trip.",
    note="Values the generated Rust type cannot hold are skipped and counted (they cannot reach the encoder)."),
+ "C05": dict(engine="e_uper", category="model_checking", design="5/C05",
+   technique="bounded-exhaustive enumeration of (schema version pair, value, direction) on the real generated codecs of both versions, sentinel appended in the same writer, project/embed oracle on abstract values",
+   text="Nine version chains (SEQUENCE with 1 and 2 root components, SET, CHOICE, ENUMERATED, an evolving SEQUENCE nested in an extension addition / in a CHOICE extension alternative / in a root component, and a chain with DEFAULT and OPTIONAL additions), up to 3-4 (quick) / 8 (thorough) appended additions whose encodings cross the open-type length boundary 127/128 (1..300 octets). Every ordered pair (sender version, receiver version) x every value of the sender version (all presence patterns of additions x covering diagonal): the receiver's generated type must decode project/embed(value), report unknown CHOICE/ENUMERATED values only as Err, and end exactly at the end of the message (a sentinel INTEGER written after the message in the same writer decodes to 0xA5 with 0 bits remaining).",
+   note="Known finding KF-C05-1 (unknown present additions are not skipped outside open types) is selected by an input predicate; for selected cases the decoded root content is still checked. states = version pairs, transitions = messages exchanged."),
+ "C16": dict(engine="e_uper", category="model_checking", design="5/C16",
+   technique="bounded-exhaustive enumeration of SET/SEQUENCE definitions (all permutations of subsets of a 13-component tag pool x marker position) through the real front end + generator + attribute parser + expand(), plus the compiled permutations on the wire against refper",
+   text="(a) 14716 (quick, <=3 components) / ~2 million (thorough, <=5 components) definitions: the order of write_value calls in write_seq and of the struct-literal fields in read_seq must be the X.680 8.6 canonical order of the root components followed by the additions (SEQUENCE: textual order), and every field's TAG constant the X.680 tag (explicit; the referenced type's own tag incl. untagged SEQUENCE/SET/CHOICE references, SEQUENCE OF / SET OF; automatic 0..n-1 only if no component is tagged). (b) the compiled permutations of <=2 (<=3) components with OPTIONAL members: bits == refper for every presence pattern, which binds call order to wire order and presence-bit order.",
+   note="Profile (DESIGN 4.4): extension additions of generated SETs are textually in tag order (X.691 orders additions textually, the statement by tag; they coincide there)."),
 }
 
 NOT_YET = {
